@@ -703,7 +703,8 @@ def is_module_logger(F, q: str) -> bool:
     return False
 
 
-LOGGER_METHODS = ('debug', 'info', 'warning', 'error', 'exception', 'critical', 'log', 'isEnabledFor', 'getEffectiveLevel')
+LOGGER_METHODS = ('debug', 'info', 'isEnabledFor', 'getEffectiveLevel')      # not emitted under the stock configuration (root level WARNING)
+LOUD_LOGGER_METHODS = ('warning', 'warn', 'error', 'exception', 'critical', 'fatal', 'log')
 
 
 def logger_call_nodes(F):
@@ -834,3 +835,85 @@ def statistics_objects(F):
                 attrs[(cq, a)] = store_nodes.get(a, set())
     F.__dict__['_statistics_objects'] = attrs
     return attrs
+
+
+def suppressing_exits(F):
+    """[(method qual, where, returned term text)] for every __exit__ of a package class that can return something other than None /
+    False: a truthy result tells Python to drop the exception that is leaving the with-block."""
+    from ..symexec import SymExec as _SE, freeze as _fz, show as _show
+    cache = F.__dict__.get('_suppressing_exits')
+    if cache is not None:
+        return cache
+    out = []
+    for cq, ci in sorted(F.classes.items()):
+        if '.ply' in ci.module.name or '__exit__' not in ci.methods:
+            continue
+        q = cq + '.__exit__'
+        if q not in F.functions:
+            continue
+        fi = F.functions[q]
+        try:
+            paths = _SE(F, fi).run()
+        except Exception:
+            continue
+        selfp = ('param', fi.node.args.args[0].arg) if fi.node.args.args else None
+        etp = ('param', fi.node.args.args[1].arg) if len(fi.node.args.args) > 1 else None
+        exv = ('param', fi.node.args.args[2].arg) if len(fi.node.args.args) > 2 else None
+        for p in paths:
+            if p.normal and _fz(p.outcome[1]) not in (('const', None), ('const', False)):
+                # a manager that drops one class of exception only (`with _on(ValueError): ...`): which classes, at its use sites?
+                narrow = None
+                for c, v, _ in p.assumptions:
+                    c = _fz(c)
+                    if v and isinstance(c, tuple) and c[:1] == ('pcall',) and c[1] in ('issubclass', 'isinstance') and len(c[2]) == 2 \
+                            and c[2][0] in (etp, exv):
+                        narrow = c[2][1]
+                if narrow is not None and _only_foreign_classes(F, cq, ci, selfp, narrow):
+                    continue
+                out.append((q, fi.where, _show(p.outcome[1])))
+                break
+    F.__dict__['_suppressing_exits'] = out
+    return out
+
+
+def _only_foreign_classes(F, cq, ci, selfp, t) -> bool:
+    """The class test of a selective __exit__ can only ever name builtin exception classes that ParserError is not a subclass of:
+    either a constant class, or an attribute of self that every constructor call in the package fills with such a class."""
+    import ast as _ast
+    import builtins as _b
+
+    def foreign(r):
+        if r[0] != 'builtin':
+            return False
+        c = getattr(_b, r[1], None)
+        return isinstance(c, type) and issubclass(c, BaseException) and not issubclass(Exception, c)
+    if isinstance(t, tuple) and t[:1] == ('ref',) and len(t) == 3:
+        return foreign((t[1], t[2]))
+    if not (isinstance(t, tuple) and t[:1] == ('attr',) and t[1] == selfp):
+        return False
+    init = ci.methods.get('__init__')
+    if init is None:
+        return False
+    pname = None
+    for st in _ast.walk(init):
+        if isinstance(st, _ast.Assign) and len(st.targets) == 1 and isinstance(st.targets[0], _ast.Attribute) and st.targets[0].attr == t[2] \
+                and isinstance(st.value, _ast.Name):
+            pname = st.value.id
+    names = [a.arg for a in init.args.args]
+    if pname is None or pname not in names:
+        return False
+    pos = names.index(pname) - 1
+    sites = 0
+    for m in F.modules.values():
+        if '.ply' in m.name:
+            continue
+        for n in _ast.walk(m.tree):
+            if isinstance(n, _ast.Call) and isinstance(n.func, (_ast.Name, _ast.Attribute)) and F.resolve_expr(m, n.func) == ('cls', cq):
+                arg = n.args[pos] if 0 <= pos < len(n.args) else next((k.value for k in n.keywords if k.arg == pname), None)
+                if arg is None:
+                    return False
+                elts = arg.elts if isinstance(arg, _ast.Tuple) else [arg]
+                if not all(isinstance(x, (_ast.Name, _ast.Attribute)) and foreign(F.resolve_expr(m, x)) for x in elts):
+                    return False
+                sites += 1
+    return sites > 0
